@@ -514,6 +514,11 @@ def gen_program_stop_full_queue(rng):
     fill = rng.choice([qsize, qsize, max(0, qsize - 1)])
     for i in range(fill):
         ops.append(["enq", "q%d" % i, "ret"])
+    if fill == qsize and rng.random() < 0.5:
+        # ... and one more producer, blocked in enqueue() on the full queue while stop() runs
+        prog["enqueuers"] = [[["enq", "blocked", "ret"]]]
+        ops.append(["go", 0])
+        ops.append(["sleep", 20])
     ops.append(["stop"])
     if rng.random() < 0.6:
         ops.append(["start"])
